@@ -34,7 +34,7 @@ ASSUMPTIONS = [
     "successful parses legitimately leave their symbol tables behind (the property only constrains create and failing parses)",
 ]
 BOUNDS = {
-    "quick": dict(length=4, note="11-op core alphabet to length 4; all 21 ops (19 string sources + a file-reader parse + a source with an INCLUDE that must stay unresolved) to length 3; every create-parse-create-parse history over all sources"),
+    "quick": dict(length=4, note="12-op core alphabet to length 4; all 24 ops (22 string sources + a file-reader parse + a source with an INCLUDE that must stay unresolved) to length 3; every create-parse-create-parse history over all sources"),
     "thorough": dict(length=5, note="all 19 ops to length 4; 9-op alphabet to length 5"),
 }
 
@@ -58,6 +58,11 @@ SOURCES = {
 # f1: a FILE parsed through FortranFileReader with default options (its directory
 # holds c09_decls.inc); vA: a string source whose INCLUDE names that file - not on
 # its own include path, so the line must stay an Include_Stmt whatever was parsed before
+# i7 / i8: rejected sources that DECLARE a name shadowing an intrinsic and REFERENCE it
+# before the error (named / anonymous main program); vB: valid, references COS in program p
+SOURCES["i7"] = "program p\n real :: cos(3)\n y = cos(2)\n x = = 1\nend program p\n"
+SOURCES["i8"] = " real :: cos(3)\n y = cos(2)\n x = = 1\n end\n"
+SOURCES["vB"] = "program p\n y = cos(1.0)\nend program p\n"
 SOURCES["f1"] = "@file:other.f90"
 SOURCES["vA"] = "program p\n include 'c09_decls.inc'\n x = 1\nend program p\n"
 _FILES = {"other.f90": "module other\n integer :: k\nend module other\n", "c09_decls.inc": " integer :: leaked_from_other_directory\n"}
@@ -84,7 +89,7 @@ def _files_dir():
 OPS = ["c3", "c8"] + sorted(SOURCES)
 OPS_SMALL = ["c3", "c8", "v1", "v2", "v3", "v4", "i2", "i3", "i4"]
 # core alphabet explored to the full length in the quick tier
-OPS_CORE = ["c3", "c8", "v1", "v2", "v3", "v7", "i2", "i3", "i4", "i5", "i6"]
+OPS_CORE = ["c3", "c8", "v1", "v2", "v3", "v7", "i2", "i3", "i4", "i5", "i6", "i8"]
 CREATES = ["c3", "c8"]
 _STD = {"c3": "f2003", "c8": "f2008"}
 
